@@ -499,6 +499,11 @@ type isoCfg struct {
 	// every request context descends from one application context that already carries a logger
 	// (http.Server.BaseContext, or r.WithContext(appCtx) in front of the chain)
 	SharedCtx bool `json:"shared_ctx,omitempty"`
+	// handlers that log AFTER the rest of the chain has returned (orders.go): each sits after Pos field
+	// handlers (0 = directly inside NewHandler, len(Chain) = directly around the final handler)
+	After []afterT `json:"after,omitempty"`
+	// the model also gets the context seen by the outermost After handler (directed sweep only)
+	afterToModel bool
 }
 
 func safeWord(r *Rng, n int) string {
@@ -615,11 +620,13 @@ func isoBatch(c *Ctx, cfg isoCfg) {
 	if probeAt[0] {
 		mws = append(mws, probe(0, false))
 	}
+	mws = append(mws, afterHandlers(cfg, 0)...)
 	for j, hi := range cfg.Chain {
 		mws = append(mws, fieldHandlers[hi].mk(keys[j]))
 		if probeAt[j+1] && j+1 < len(cfg.Chain) {
 			mws = append(mws, probe(j+1, false))
 		}
+		mws = append(mws, afterHandlers(cfg, j+1)...)
 	}
 	mws = append(mws, probe(len(cfg.Chain), true))
 	var h http.Handler = http.HandlerFunc(func(w http.ResponseWriter, rq *http.Request) { w.WriteHeader(204) })
@@ -728,6 +735,7 @@ func isoBatch(c *Ctx, cfg isoCfg) {
 		got[key{probeF.Rid, probeF.Pos}] = append(got[key{probeF.Rid, probeF.Pos}], ln)
 	}
 	finalCtx := make([]string, cfg.N)
+	afterCtx := make([]string, cfg.N)
 	work := make([][][]byte, cfg.N)
 	for i, v := range vals {
 		ctx := baseCtx
@@ -779,6 +787,16 @@ func isoBatch(c *Ctx, cfg isoCfg) {
 		checkAt(len(cfg.Chain))
 		checkAt(len(cfg.Chain) + 1000)
 		work[i] = chunks
+		// lines logged after the chain returned (orders.go): every field handler of the chain has run by then
+		for ai, a := range cfg.After {
+			g := got[key{i, afterPosBase + ai}]
+			checkAfterLine(c, cfg, jcfg, vals, i, ai, a, g, ctx, nf)
+			if ai == 0 && len(g) == 1 {
+				if p := strings.LastIndex(g[0], `"rid":`); p > 0 {
+					afterCtx[i] = strings.TrimSuffix(g[0][:p], ",")
+				}
+			}
+		}
 		// observed final context bytes: the final event without the probe's own fields
 		if g := got[key{i, len(cfg.Chain)}]; len(g) == 1 {
 			s := g[0]
@@ -839,6 +857,20 @@ func isoBatch(c *Ctx, cfg isoCfg) {
 	if cfg.N <= 8 || cfg.Seed%4 == 0 || c.Thorough() {
 		c.AddCase(term, jcfg) // the monitors above run on every batch; the largest batches go to the model one in four
 	}
+	if cfg.afterToModel && len(cfg.After) > 0 {
+		// the context the outermost After handler logged with, once the chain had returned: the model's
+		// final context of the request (one logger per request, every append went to it)
+		as := make([]string, cfg.N)
+		for i := range as {
+			if afterCtx[i] == "" {
+				as[i] = "None"
+			} else {
+				as[i] = "(Some " + CoqBytes([]byte(afterCtx[i])) + ")"
+			}
+		}
+		j2 := map[string]interface{}{"kind": "iso", "config": cfg, "contexts_seen_after_the_chain_returned": afterCtx}
+		c.AddCase(fmt.Sprintf("(CIso %s %s %s, OIso %s)", bterm, CoqList(ws), CoqList(ss), CoqList(as)), j2)
+	}
 	names := []string{}
 	for _, hi := range cfg.Chain {
 		names = append(names, fieldHandlers[hi].Name)
@@ -888,11 +920,19 @@ func genIso(r *Rng, server bool) isoCfg {
 		}
 	}
 	sort.Ints(cfg.Probes)
+	// drawn last, so that chains and probes of a given seed are what they were before After existed
+	if r.Chance(60) {
+		for p := 0; p <= len(cfg.Chain); p++ {
+			if r.Chance(25) {
+				cfg.After = append(cfg.After, afterT{Pos: p, Access: r.Chance(60)})
+			}
+		}
+	}
 	return cfg
 }
 
 func runC18(c *Ctx) {
-	c.Res.Rule = "proxy: every sequence of <=L calls over {WriteHeader(201), WriteHeader(404), Write(3 accepted 3), Write(4 accepted 1 + error), ReadFrom(5 accepted 5), ReadFrom(5 accepted 2 + error), Flush} for the writers basic / Flusher / CloseNotifier+Flusher+Hijacker+ReaderFrom (L=5), then seeded random sequences of 1..14 calls (12 status codes incl. 0/1xx/999, lengths 0..2000, any accepted count with/without error, empty ReadFrom) over 7 capability sets, all through the real hlog.AccessHandler on a recording fake ResponseWriter; stacked AccessHandlers (the ResponseWriter given to one is the proxy of another) with calls made between them: two layers exhaustively over <=2 calls sent by the middleware before the inner AccessHandler x <=2 calls of the inner handler x <=1 call afterwards on {WriteHeader(202), WriteHeader(404), Write(3), ReadFrom(5), ReadFrom(5 accepted 2 + error)} for the three writers, then random 2-3 layers over all capability sets; every layer must report the calls made inside it; plus sequences <=3 (thorough 5) on a real net/http server compared with what the client received; non-trivial = at least two kinds of call or a partial/failed write. isolation: batches of 1..32 concurrent requests with distinct URL/method/remote address/user agent/referer/header/host values through NewHandler + a random list of 0..8 field handlers (12 kinds, repeats allowed), probes at random chain positions, a barrier before the final events, base logger with nil context / spare capacity / longer than 500 bytes, direct ServeHTTP and a real httptest.Server; non-trivial = >=2 requests and >=1 field handler"
+	c.Res.Rule = "proxy: every sequence of <=L calls over {WriteHeader(201), WriteHeader(404), Write(3 accepted 3), Write(4 accepted 1 + error), ReadFrom(5 accepted 5), ReadFrom(5 accepted 2 + error), Flush} for the writers basic / Flusher / CloseNotifier+Flusher+Hijacker+ReaderFrom (L=5), then seeded random sequences of 1..14 calls (12 status codes incl. 0/1xx/999, lengths 0..2000, any accepted count with/without error, empty ReadFrom) over 7 capability sets, all through the real hlog.AccessHandler on a recording fake ResponseWriter; stacked AccessHandlers (the ResponseWriter given to one is the proxy of another) with calls made between them: two layers exhaustively over <=2 calls sent by the middleware before the inner AccessHandler x <=2 calls of the inner handler x <=1 call afterwards on {WriteHeader(202), WriteHeader(404), Write(3), ReadFrom(5), ReadFrom(5 accepted 2 + error)} for the three writers, then random 2-3 layers over all capability sets; every layer must report the calls made inside it; plus sequences <=3 (thorough 5) on a real net/http server compared with what the client received; non-trivial = at least two kinds of call or a partial/failed write. isolation: batches of 1..32 concurrent requests with distinct URL/method/remote address/user agent/referer/header/host values through NewHandler + a random list of 0..8 field handlers (12 kinds, repeats allowed), probes at random chain positions, handlers that log after the rest of the chain returned (hlog.AccessHandler with a logging callback, or a plain middleware) at random positions and, as a directed sweep, at every position of chains of one, two and all twelve field handlers in rotated/reversed orders - such a line must carry every field the chain's handlers added for that request and nothing else; a barrier before the final events, base logger with nil context / spare capacity / longer than 500 bytes, direct ServeHTTP and a real httptest.Server; non-trivial = >=2 requests and >=1 field handler"
 	c.OpenShards("From Verif Require Import Base.Prelude Misc.Hlog Misc.HlogHeap Harness.C18H.\nOpen Scope Z_scope.",
 		"c18_case * c18_obs", "mismatches c18_run c18_eqb", 1000)
 
@@ -954,6 +994,9 @@ func runC18(c *Ctx) {
 	for i := 0; i < nb; i++ {
 		isoBatch(c, genIso(c.R.Fork(), false))
 	}
+	isoOrders(c) // every order of field handlers relative to a handler that logs after the chain returned (orders.go)
+	c.OpenShards("From Verif Require Import Base.Prelude Misc.Hlog Misc.HlogHeap Harness.C18H.\nOpen Scope Z_scope.",
+		"c18_case * c18_obs", "mismatches c18_run c18_eqb", 5)
 	ns := 6
 	if c.Thorough() {
 		ns = 60
